@@ -1,4 +1,5 @@
 import MesaModel.Proofs.Collect
+import MesaModel.Proofs.CollectHeap
 /-!
 # C12 — DataCollector records exactly what the model showed at each collect
 
@@ -43,6 +44,19 @@ theorem C12_stored_values_immune (cfg : Cfg) (hT : Total cfg) (tables : List (Na
   | nil => rfl
   | cons r rs ih => simp
 
+/-- **Immune to later mutation, with references.**  In the heap model (`Model/CollectHeap.lean`: a mutable list is an
+    object with an address, attributes hold references, `model.a = model.b` makes two names for one object,
+    `model.a.append(x)` mutates the object in place, `collect` stores `deepcopy(getattr(model, a, None))`): after every
+    history — whatever is rebound, aliased or mutated in place after a collect, through whichever name — reading the
+    stored column at the end shows, entry by entry, exactly what the reporter showed at the moment of its collect.
+    This is what justifies treating collected model-level values as plain values in `Model/Collect.lean`.  It depends
+    on the copy: with `collect` storing the value itself the statement is false (refuted in the examples below). -/
+theorem C12_deepcopy_makes_stored_values_immune (ops : List CollectHeap.HOp) :
+    (CollectHeap.runH true CollectHeap.empty ops).col.map
+        (CollectHeap.resolve (CollectHeap.runH true CollectHeap.empty ops).heap) =
+      CollectHeap.seen true CollectHeap.empty ops := by
+  simpa [CollectHeap.empty] using CollectHeap.run_deep CollectHeap.empty ops CollectHeap.inv_empty
+
 /-- A collect at which no model reporter and no agent reporter raises records, under the current step, exactly
     one row per agent registered at that moment, in registry order: `(steps, unique_id, the values the agent
     reporters return for that agent)`. -/
@@ -79,15 +93,23 @@ theorem C12_agent_records_by_step (cfg : Cfg) (hT : Total cfg) (tables : List (N
   rw [hr]
   exact ⟨keys_assign_sorted _ _ _ h.sorted, fun k => lookup_assign _ _ _ k⟩
 
-/-- The agent frame is a lossless re-indexing of those records: the rows of `_agent_records` concatenated
-    in key order (= increasing step, rows of one step in registry order), one value per agent reporter. -/
+/-- The agent frame is a lossless re-indexing of those records, stated as a function of the history: for each step at
+    which a collect stored, in increasing step order (`assign` = the dict written by the storing collects in turn), the
+    rows `agentRows` of the *last* storing collect at that step (`C12_agent_records_by_step`), rows of one step in the
+    order of `model.agents` at that collect; it is the rows of `_agent_records` concatenated in key order; one value per
+    agent reporter in every row. -/
 theorem C12_agent_frame_is_records (cfg : Cfg) (hT : Total cfg) (tables : List (Nat × List Nat)) (ops : List Op)
     (hne : cfg.areps ≠ []) :
+    agentFrame cfg (run cfg (init cfg tables) ops) =
+      .ok ((assign (·.steps) (agentRows cfg) (storedSnaps cfg (init cfg tables) ops)).flatMap (·.2)) ∧
     agentFrame cfg (run cfg (init cfg tables) ops) =
       .ok ((run cfg (init cfg tables) ops).records.flatMap (·.2)) ∧
     ∀ row ∈ (run cfg (init cfg tables) ops).records.flatMap (·.2), row.vals.length = cfg.areps.length := by
   have hne' : cfg.areps.isEmpty = false := by simpa using hne
-  refine ⟨by simp [agentFrame, hne'], ?_⟩
+  refine ⟨?_, by simp [agentFrame, hne'], ?_⟩
+  · have h := (holds_history hT tables ops).records
+    simp only [hne', Bool.false_eq_true, if_false] at h
+    simp [agentFrame, hne', h]
   intro row hrow
   obtain ⟨⟨k, rows⟩, hm, hr⟩ := List.mem_flatMap.mp hrow
   have h := holds_history hT tables ops
@@ -205,18 +227,67 @@ theorem C12_creation_order_without_reorder (cfg : Cfg) (tables : List (Nat × Li
   · simp [init, IdSorted]
   · simp [init]
 
+/-- `get_agenttype_vars_dataframe(T)` for a key `T` of the reporter dict (all keys Agent classes, keys distinct): every
+    per-step dict written by a storing collect has an entry for `T` (the `if agent_type in records` filter never drops a
+    step, no default is taken), that entry is the rows of `T`'s agents at the last storing collect `sn` of the step
+    (`classAgents`, characterised by `C12_agenttype_rows_are_class_members`) with `T`'s reporters, and the frame is those
+    entries concatenated in increasing step order. -/
+theorem C12_agenttype_frame_is_records (cfg : Cfg) (hT : Total cfg) (tables : List (Nat × List Nat)) (ops : List Op)
+    (T : Nat) (reps : List ARep) (hl : cfg.treps.lookup T = some reps) (hnd : (cfg.treps.map (·.1)).Nodup)
+    (hcls : ∀ x ∈ cfg.treps, cfg.isAgentClass x.1 = true) :
+    let dicts := assign (·.steps) (typeDict cfg) (storedSnaps cfg (init cfg tables) ops)
+    typeFrame cfg (run cfg (init cfg tables) ops) T = some (dicts.flatMap fun e => (e.2.lookup T).getD []) ∧
+    (dicts.map (·.1)).Pairwise (· < ·) ∧
+    ∀ e ∈ dicts, ∃ sn ∈ storedSnaps cfg (init cfg tables) ops, e.1 = sn.steps ∧
+      ∃ ags, classAgents cfg sn T = some ags ∧ e.2.lookup T = some (ags.map (mkRow reps sn)) := by
+  intro dicts
+  have h := holds_history hT tables ops
+  have hne : cfg.treps.isEmpty = false := by
+    cases hc : cfg.treps with
+    | nil => simp [hc] at hl
+    | cons x xs => rfl
+  have hr := h.typeRecords
+  simp only [hne, Bool.false_eq_true, if_false] at hr
+  refine ⟨?_, keys_assign_sorted _ _ _ h.sorted, ?_⟩
+  · simp only [typeFrame, hl, Option.isNone_some, Bool.false_eq_true, if_false, hr]
+    rfl
+  · intro e he
+    obtain ⟨sn, hsn, rfl⟩ := mem_assign _ _ _ e he
+    refine ⟨sn, hsn, rfl, ?_⟩
+    have hk : ∀ x ∈ cfg.treps, KeyOk cfg sn x := by
+      intro x hx
+      unfold KeyOk
+      cases hc : classAgents cfg sn x.1 with
+      | none =>
+        unfold classAgents at hc
+        split at hc
+        · cases hc
+        · simp [hcls x hx] at hc
+      | some ags => exact ⟨ags, rfl, rowsExc_none_of_total x.2 (fun r hr sn ag => hT.t x hx r hr sn ag) sn ags⟩
+    have := typeLoopS_lookup cfg sn cfg.treps [] hk hnd T reps hl
+    obtain ⟨ags, hags, _⟩ := hk (T, reps) (mem_of_lookup hl)
+    refine ⟨ags, hags, ?_⟩
+    simp only [typeDict, this, hags, Option.map_some]
+
 /-- Table rows are appended column-aligned: over every history every column of every table holds exactly
     the cells of the rows `add_table_row` accepted for that table, in order (`None` for a key missing
     under `ignore_missing`); in particular all columns have the same length and `get_table_dataframe`
-    never sees ragged input. -/
+    never sees ragged input.  The table is unknown exactly if it was not declared: a declared table is never lost. -/
 theorem C12_table_rows_aligned (cfg : Cfg) (tables : List (Nat × List Nat)) (ops : List Op) (t : Nat) :
-    tableFrame (run cfg (init cfg tables) ops) t = .error .unknown ∨
+    (tableFrame (run cfg (init cfg tables) ops) t = .error .unknown ↔ t ∉ tables.map (·.1)) ∧
+    (tableFrame (run cfg (init cfg tables) ops) t = .error .unknown ∨
     ∃ tab, (run cfg (init cfg tables) ops).tables.lookup t = some tab ∧
       tableFrame (run cfg (init cfg tables) ops) t =
         .ok ((if tab = [] then 0 else (acceptedRows cfg t (init cfg tables) ops).length), tab) ∧
-      ∀ cv ∈ tab, cv.2 = (acceptedRows cfg t (init cfg tables) ops).map (cell cv.1) := by
+      ∀ cv ∈ tab, cv.2 = (acceptedRows cfg t (init cfg tables) ops).map (cell cv.1)) := by
   have h := tabHolds_run (cfg := cfg) (tabHolds_init cfg tables) ops
   simp only [List.nil_append] at h
+  refine ⟨?_, ?_⟩
+  · rw [tableFrame_unknown_iff, ← Option.not_isSome_iff_eq_none, run_tables_known]
+    have := initTables_lookup tables [] t
+    simp only [init] at this ⊢
+    rw [this]
+    simp
   rcases tableFrame_of_tabHolds h t with hu | ⟨tab, hl, hf⟩
   · exact Or.inl hu
   · exact Or.inr ⟨tab, hl, hf, h t tab hl⟩
@@ -412,6 +483,18 @@ example : (storedSnaps rxCfg (init rxCfg []) rxOps).map (fun sn => (mOk rxCfg sn
     [(false, false), (true, false), (true, true)] := by decide
 /-! a plain function that raises at the trial call of the first collect: RuntimeError, nothing stored -/
 example : (collect { rxCfg with mreps := [.fn (needM 0), .attr 5] } (init rxCfg [])).2 = some .runtime := by decide
+/-! references: `model.x0 = [1]; model.x1 = model.x0; collect; model.x1.append(5); collect` — with deepcopy the first
+    stored entry still reads `[1]`; storing the value itself (`deep := false`) every stored entry is the live object
+    and reads `[1, 5]`: the immunity statement is false for the aliasing collector -/
+open CollectHeap in
+def hpOps : List HOp := [.setNew 0 [1], .alias 1 0, .collect 0, .app 1 5, .collect 0, .setInt 0 3, .collect 0]
+open CollectHeap in
+example : (runH true empty hpOps).col.map (resolve (runH true empty hpOps).heap) = [.list [1], .list [1, 5], .int 3] := by decide
+open CollectHeap in
+example : seen true empty hpOps = [.list [1], .list [1, 5], .int 3] := by decide
+open CollectHeap in
+example : (runH false empty hpOps).col.map (resolve (runH false empty hpOps).heap) = [.list [1, 5], .list [1, 5], .int 3] ∧
+    (runH false empty hpOps).col.map (resolve (runH false empty hpOps).heap) ≠ seen false empty hpOps := by decide
 /-! `model.agents` reversed in place between creation and collect (classes 1 and 2 derive from 0; keys: class 1 with
     direct instances, base class 0 without): the agent rows and the rows of the base-class key follow the new order
     of `model.agents`, the rows of class 1 stay in creation order (`agents_by_type[1]`) -/
